@@ -706,8 +706,13 @@ class _FusionCLI(Contract):
         st = self._cur
         iz = i if is_z3(i) else z3.IntVal(i)
         gid = lambda side: SymObj('GeneIdStub', side=side, idx=iz)
+        # the other read counts of a record are values of their own: a threshold compared with one of them is a different test
+        other = lambda nm: z3.Function(f'record_{nm}', I_, z3.RealSort())(iz)
         return SymObj('FusionRecStub', idx=iz, est_j=st.ev['est_j'](iz), counts_of_common_mapping_reads=st.ev['common_mapping'](iz),
-                      spanning_unique_reads=st.ev['spanning_unique'](iz), gene_id1=gid(1), gene_id2=gid(2))
+                      spanning_unique_reads=st.ev['spanning_unique'](iz), gene_id1=gid(1), gene_id2=gid(2),
+                      spanning_pairs=other('spanning_pairs'), longest_anchor_found=other('longest_anchor_found'), est_s=other('est_s'),
+                      junction_read_count=other('junction_read_count'), spanning_frag_count=other('spanning_frag_count'), ffpm=other('ffpm'),
+                      split_reads1=other('split_reads1'), split_reads2=other('split_reads2'), discordant_mates=other('discordant_mates'))
 
     @property
     def models(self):
@@ -1000,6 +1005,39 @@ class NativeFusion(NativeCheck):
 
     def nontrivial(self, inp):
         return (inp['seed'], inp['tool'])
+
+
+@register
+class ArribaAntisense(Contract):
+    """Arriba reports each partner as <gene strand>/<strand of the fusion transcript>; a call is antisense - and skipped by parseArriba - iff
+    the transcript strand of the donor or of the accepter (the part behind the slash, '.' = undetermined) differs from the strand of that
+    partner's gene in the annotation"""
+    path, qualname, props = 'moPepGen/parser/ArribaParser.py', 'ArribaRecord.transcript_on_antisense_strand', ('C15',)
+    declared_raises = ['ValueError']
+
+    def setup(self, I):
+        e = I.e
+        st = types.SimpleNamespace()
+        syms = ['+', '-', '.']
+        st.g = [syms[e.choose(2, f'gene strand {i} as reported')] for i in (1, 2)]
+        st.t = [syms[e.choose(3, f'transcript strand {i}')] for i in (1, 2)]
+        st.anno_strand = [e.int('annotated_strand_gene1'), e.int('annotated_strand_gene2')]
+        for x in st.anno_strand:
+            e.assume(z3.Or(x == 1, x == -1))
+        genes = {'G1': SymObj('GeneStub15a', strand=st.anno_strand[0]), 'G2': SymObj('GeneStub15a', strand=st.anno_strand[1])}
+        st.args = [SymObj('ArribaRecord', strand1=f'{st.g[0]}/{st.t[0]}', strand2=f'{st.g[1]}/{st.t[1]}', gene_id1='G1', gene_id2='G2'), SymObj('AnnoStub15a', genes=genes)]
+        self._cur = st
+        return st
+
+    def post_return(self, I, st, ret):
+        val = {'+': 1, '-': -1, '.': 0}
+        want = z3.Or(z3.IntVal(val[st.t[0]]) != st.anno_strand[0], z3.IntVal(val[st.t[1]]) != st.anno_strand[1])
+        from pyvc.core import as_bool
+        r = ret if isinstance(ret, bool) else as_bool(I.truth(ret))
+        I.e.prove('C15/arriba/antisense-iff-a-transcript-strand-differs-from-the-annotated-strand-of-its-gene', (z3.BoolVal(r) if isinstance(r, bool) else r) == want)
+
+    def post_raise(self, I, st, exc):
+        I.e.prove('C15/arriba/antisense/raise/never-for-the-strand-symbols-arriba-writes', False)
 
 
 class NativeArribaConfidence(NativeCheck):
